@@ -4,7 +4,7 @@ from .ir import operands, global_roots
 from .effects import external_effect
 
 PTR_OPS = ("getelementptr", "bitcast", "phi", "select", "addrspacecast")
-INT_OPS = ("ptrtoint", "inttoptr", "add", "sub", "and", "or")
+INT_OPS = ("ptrtoint", "inttoptr", "add", "sub", "and", "or", "sdiv", "udiv", "ashr", "lshr", "shl", "mul", "zext", "sext", "trunc")
 
 
 def labels_of(o, der, groots):
@@ -145,8 +145,8 @@ class Summaries:
                     yield (k, l, "r")
                 if "va" in eff and eff["va"] == k:
                     yield (k, l, "esc")
-                if "fmt" in eff and k > eff["fmt"] and "va" not in eff and not eff.get("libc_fmt_fixed"):
-                    yield (k, l, "esc")
+                if "fmt" in eff and k > eff["fmt"] and "va" not in eff and eff.get("gram", "").endswith("scanf"):
+                    yield (k, l, "w")          # variadic receivers of a scanf-like callee
 
 
 def taint(fn, source_loads):
